@@ -4,21 +4,35 @@ import json, re, itertools
 
 PROPS = ["C12/Props.v"]
 META = dict(
-    text="Rocq theorems over an executable model of pkg/obingslibrary (Hamming, two-row Levenshtein, Closest*Tag fold over the Go map, fixed / delimited / rescue "
-         "tag windows, SampleIdentifier, the +i/-i pairing automaton of ExtractMultiBarcode) and of FilterBestMatch, over specification primer hits: "
-         "the nearest-tag fold returns the UNIQUE nearest declared tag for every iteration order; the two-row DP is the Wagner-Fischer edit distance; SAFETY (a sample "
-         "only when both extracted tags identify declared tags under the declared mode and the pair is declared with that sample, otherwise the error flag); "
-         "canonical read and strand symmetry (fixed-length and delimited tags) when the primer hits of the library in the read are exactly the two priming sites. "
-         "The model is tied to the code on every run: sheets in both formats are parsed by the real ReadNGSFilter, reads built from them (both strands, primer / tag "
-         "errors, chimeras, nested / crossed / partial sites) go through the real ExtractMultiBarcode, the same inputs are evaluated by vm_compute in Coq, and a direct "
-         "Python oracle states the parse, matched-primer, canonical-read, strand-symmetry and safety clauses on the implementation's output.",
-    note="Trusted: Coq kernel + vm_compute, harness, generators. Primer hits of the model are the specification matcher (mismatch count per window with IUPAC pattern "
-         "letters, then the transcription of FilterBestMatch); the C Manber automaton is property C10. Primer indels (@indels true) are exercised by the direct oracle "
-         "(safety) only, not modelled. Rescue extraction (tag indels): model + correspondence + safety, no canonical theorem (as the property says). Hits with equal "
-         "begin from different patterns (order depends on the Go map order) are excluded from the correspondence and counted (none seen).")
-TRUSTED = ["primer hits of the model = specification matcher (mismatch count <= budget per window, IUPAC pattern letters) + FilterBestMatch transcription; the C Manber automaton itself is property C10",
+    text="Rocq theorems (43, all closed under the global context) over an executable model of pkg/obingslibrary (Hamming, two-row Levenshtein, Closest*Tag fold over "
+         "the Go map, fixed / delimited / RESCUE tag windows, SampleIdentifier, the +i/-i pairing automaton of ExtractMultiBarcode with its stable sort of the hits) and of "
+         "FilterBestMatch: the nearest-tag fold returns the UNIQUE nearest declared tag for every iteration order (any permutation; [perms] enumerates exactly the "
+         "permutations and one correspondence case checks them all) and has, by design, no upper bound on the distance (theorem); the two-row DP is the Wagner-Fischer edit "
+         "distance; SAFETY (a sample only when both extracted tags identify declared tags under the declared mode and the pair is declared with that sample, otherwise the "
+         "error flag) for ANY list of primer hits; every record is cut exactly at the spans of its own hit pair (any matcher: substitution windows or re-aligned indel "
+         "spans) and the amplicons of a chimeric read are independent; canonical read and strand symmetry for fixed-length, delimited AND rescue tags (rescue: delimiter "
+         "runs shortened within tag_indels, observed tags longer / shorter than declared within tag_indels; lookForRescueTag characterised: returns the tag on that shape, "
+         "and always either nothing or a factor of the fragment within tag_indels of the declared length), for the specification matcher and for any matcher producing "
+         "the two intended hits (primer indels). The model is tied to the code on every run: sheets in both formats are parsed by the real ReadNGSFilter, reads built from "
+         "them (both strands, primer substitutions and indels, tag errors, rescue layouts, chimeras of every status pattern, nested / crossed / partial sites, near-identical "
+         "primers) go through the real ExtractMultiBarcode 2-4 times on freshly parsed libraries (the records must not depend on the Go map orders), Closest*Tag is run on "
+         "rebuilt markers until every iteration order of the tags has been observed (the order is read off the calls to the distance function), the same inputs are evaluated "
+         "by vm_compute in Coq, and a direct Python oracle states the parse, matched-primer (IUPAC edit distance in indel mode), canonical-read, strand-symmetry, safety, "
+         "rescue and determinism clauses on the implementation's output.",
+    note="Trusted: Coq kernel + vm_compute, harness, generators, verif hooks (VerifSamples, VerifLookFor*Tag, VerifPrimerMatches = copy of the hit-collection loop of "
+         "ExtractMultiBarcode; a divergence between the copy and the real loop shows up as a correspondence mismatch). Primer hits of the model are the specification "
+         "matcher (mismatch count per window with IUPAC pattern letters, then the transcription of FilterBestMatch) for substitution-only primers; for sheets with "
+         "@indels the matcher is a PARAMETER: the model receives the spans reported by the library (C Manber automaton + LocatePattern re-alignment = property C10) and the "
+         "theorems quantify over any hit list. Rescue canonical theorem needs both sides in rescue mode (mixed fixed/rescue sides: oracle + correspondence only). "
+         "Fixed in round 2 (known_findings.d/C12.json): primers shared between markers were accepted (CheckPrimerUnicity ignored); records depended on the iteration order "
+         "of library.Markers when two markers hit the same position (now: markers in primer order + stable sort, which is what the model does, so begin ties are inside "
+         "the correspondence). By design, stated as a theorem and exhibited in the corpus: a tag at any distance is assigned when one declared tag is strictly nearest.")
+TRUSTED = ["primer hits of the model = specification matcher (mismatch count <= budget per window, IUPAC pattern letters) + FilterBestMatch transcription for substitution-only primers; "
+           "with @indels the hits are a parameter of the model (spans exported by the verif hook VerifPrimerMatches); the C Manber automaton and LocatePattern are property C10",
+           "verif hook VerifPrimerMatches is a copy of the collection loop of ExtractMultiBarcode (compared with the real loop through the records on every run)",
            "csv / mimetype detection of the sheet reader are only exercised (parse clause of the direct oracle), not modelled",
-           "reads over a/c/g/t (BioSequence.ReverseComplement modelled on IUPAC letters only)"]
+           "reads over a/c/g/t (BioSequence.ReverseComplement modelled on IUPAC letters only)",
+           "iteration orders of Go maps: every order of <= 5 sample pairs is forced by rebuilding the marker (observed through the distance callback); marker-map orders are sampled by 2-4 re-parses per sheet"]
 
 IUPAC = dict(a="a", c="c", g="g", t="t", r="ag", y="ct", m="ac", k="gt", s="cg", w="at", b="cgt", d="agt", h="act", v="acg", n="acgt")
 COMP = dict(a="t", c="g", g="c", t="a", r="y", y="r", m="k", k="m", s="s", w="w", b="v", v="b", d="h", h="d", n="n")
@@ -55,6 +69,18 @@ def lev(a, b):
 DIST = dict(hamming=hamming, indel=lev, lev=lev)
 
 
+def edit_iupac(pat, w):
+    """edit distance between an IUPAC pattern and a word (a letter of the word matches a pattern letter whose set contains it)"""
+    prev = list(range(len(w) + 1))
+    for i in range(1, len(pat) + 1):
+        cur = [i] + [0] * len(w)
+        ok = IUPAC[pat[i - 1]]
+        for j in range(1, len(w) + 1):
+            cur[j] = min(prev[j] + 1, cur[j - 1] + 1, prev[j - 1] + (w[j - 1] not in ok))
+        prev = cur
+    return prev[len(w)]
+
+
 def unique_nearest(tags, t, dist):
     """the statement: the unique declared tag at minimal distance, '' when there is a tie (or no tag)"""
     tags = sorted(set(tags))
@@ -64,6 +90,18 @@ def unique_nearest(tags, t, dist):
     m = min(ds)
     best = [x for x, d in zip(tags, ds) if d == m]
     return (best[0] if len(best) == 1 else ""), m
+
+
+def rescue_expectation(s, d, tl, border, indel):
+    """C12_rescue_tag_spec as a regular expression: on  pre x d^k1 tag d^k2 junk  (x != d, tag and junk without d, 1 <= k1 <= border,
+    max(1, border - indel) <= k2 <= border, |len(tag) - tl| <= indel < tl) the rescued tag is tag. None: outside that shape."""
+    m = re.match("^(.*[^%s])(%s+)([^%s]+)(%s+)([^%s]*)$" % (d, d, d, d, d), s, re.S)
+    if not m or indel >= tl:
+        return None
+    k1, tag, k2 = len(m.group(2)), m.group(3), len(m.group(4))
+    if 1 <= k1 <= border and max(1, border - indel) <= k2 <= border and abs(len(tag) - tl) <= indel:
+        return tag
+    return None
 
 
 def look_for_tag_spec(s, d):
@@ -150,7 +188,7 @@ def gen_sheet(rng, force=None):
                     params.append(("forward_tag_indels", [str(ti)])); glob["ftind"] = ti
                 else:
                     params.append(("reverse_tag_indels", [str(ti)])); glob["rtind"] = ti
-        if rng.random() < 0.06:
+        if rng.random() < 0.15:
             params.append(("indels", ["true"])); glob["find"] = glob["rind"] = True
     used = set()
     for mi in range(nm):
@@ -181,6 +219,15 @@ def gen_sheet(rng, force=None):
             sname = "s%d_%d" % (mi, len(m["samples"])) if rng.random() < 0.8 else "shared"
             m["samples"].append(dict(f=a, r=b, sample=sname, exp="exp%d" % rng.randrange(2)))
         markers.append(m)
+    # two markers whose forward (or reverse) primers differ by one base: both patterns hit the same site of a read
+    near = False
+    if nm >= 2 and rng.random() < 0.15:
+        a, b = markers[0], markers[1]
+        side = rng.choice(["fwd", "rev"])
+        p0 = a[side]; i = rng.randrange(2, len(p0) - 2)
+        p1 = p0[:i] + rng.choice([c for c in "acgt" if c != p0[i]]) + p0[i + 1:]
+        if p1 not in primers:
+            b[side] = p1; near = True
     # per-primer parameters (csv only)
     if fmt == "csv" and rng.random() < 0.3:
         m = rng.choice(markers)
@@ -231,7 +278,33 @@ def gen_sheet(rng, force=None):
     markers.sort(key=lambda m: (m["fwd"], m["rev"]))
     for m in markers:
         m["samples"].sort(key=lambda s: (s["f"], s["r"]))
-    return dict(markers=markers, fmt=fmt), "\n".join(lines) + "\n"
+    return dict(markers=markers, fmt=fmt, near_identical_primers=near), "\n".join(lines) + "\n"
+
+
+def gen_shared_primer(rng):
+    """a sheet in which one primer serves two markers (or both sides of one marker): the library's own CheckPrimerUnicity calls this
+    an error - accepted, the two markers compete for the same priming site and which one wins changes from run to run"""
+    f1 = gen_primer(rng, []); r1 = gen_primer(rng, [f1]); r2 = gen_primer(rng, [f1, r1]); f2 = gen_primer(rng, [f1, r1, r2])
+    kind = rng.choice(["same_forward", "same_reverse", "forward_is_reverse_of_other", "forward_equals_reverse"])
+    if kind == "same_forward":
+        ms = [(f1, r1), (f1, r2)]
+    elif kind == "same_reverse":
+        ms = [(f1, r1), (f2, r1)]
+    elif kind == "forward_is_reverse_of_other":
+        ms = [(f1, r1), (r1, r2)]
+    else:
+        ms = [(f1, f1)]
+    t = [rseq(rng, 4) for _ in range(4)]
+    fmt = rng.choice(["old", "csv"])
+    rows = [("e", "s%d" % i, "%s:%s" % (t[2 * i], t[2 * i + 1]), a, b) for i, (a, b) in enumerate(ms)]
+    if fmt == "old":
+        txt = "".join("%s %s %s %s %s F @\n" % r for r in rows)
+    else:
+        txt = "experiment,sample,sample_tag,forward_primer,reverse_primer\n" + "".join(",".join(r) + "\n" for r in rows)
+    a, b = ms[-1]
+    rd = rseq(rng, 7) + t[2 * (len(ms) - 1)] + a + rseq(rng, 25) + rc(b) + rc(t[2 * (len(ms) - 1) + 1]) + rseq(rng, 5)
+    lib = dict(fmt=fmt, markers=[], malformed="a primer used by two markers / on both sides (%s)" % kind)
+    return lib, txt, [dict(read=rd, kind="malformed", amps=[]), dict(read=rc(rd), kind="malformed", amps=[])]
 
 
 def gen_malformed(rng):
@@ -264,6 +337,22 @@ def mutate_primer(rng, p, k):
     return "".join(out)
 
 
+def mutate_primer_indel(rng, p, k):
+    """an occurrence of primer p with k edit operations (at least one insertion or deletion when k > 0), all in the interior of
+    the primer so that the priming site keeps its two ends"""
+    out = list("".join(rng.choice(IUPAC[c]) for c in p))
+    ops = [rng.choice(["ins", "del"])] + [rng.choice(["ins", "del", "sub"]) for _ in range(k - 1)] if k > 0 else []
+    for op in ops:
+        i = rng.randrange(4, max(5, len(out) - 4))
+        if op == "ins":
+            out.insert(i, rng.choice("acgt"))
+        elif op == "del":
+            del out[i]
+        else:
+            out[i] = rng.choice([b for b in "acgt" if b != out[i]])
+    return "".join(out)
+
+
 def mutate_tag(rng, t, kind, alpha):
     if not t:
         return t
@@ -279,8 +368,11 @@ def mutate_tag(rng, t, kind, alpha):
     return t
 
 
-def amplicon(rng, m, s, kf=0, kr=0, tagmut=None, barlen=None):
-    """one amplicon in forward orientation; returns (text, info)"""
+def amplicon(rng, m, s, kf=0, kr=0, tagmut=None, barlen=None, pindel=False):
+    """one amplicon in forward orientation; returns (text, info).
+    A side in RESCUE mode (tag delimiter + tag indels) is laid out as  x d^k1 tag d^k2 primer  with x != d, 1 <= k1 <= spacer,
+    max(1, spacer - tag_indels) <= k2 <= spacer (info['rescue_ok']); a fraction of the amplicons leaves that shape on purpose.
+    pindel: the kf / kr primer errors include at least one inserted / deleted base (sheets with @indels)."""
     af = "".join(c for c in "acgt" if ord(c) != m["fdelim"])
     ar = "".join(c for c in "acgt" if ord(c) != m["rdelim"])
     tf, tr = s["f"], s["r"]
@@ -292,19 +384,60 @@ def amplicon(rng, m, s, kf=0, kr=0, tagmut=None, barlen=None):
             tr = mutate_tag(rng, tr, kind, ar)
     spf = chr(m["fdelim"]) * m["fsp"] if m["fdelim"] else rseq(rng, m["fsp"])
     spr = chr(m["rdelim"]) * m["rsp"] if m["rdelim"] else rseq(rng, m["rsp"])
-    pf = mutate_primer(rng, m["fwd"], kf)
-    pr = mutate_primer(rng, m["rev"], kr)
+    if pindel:
+        pf = mutate_primer_indel(rng, m["fwd"], kf)
+        pr = mutate_primer_indel(rng, m["rev"], kr)
+    else:
+        pf = mutate_primer(rng, m["fwd"], kf)
+        pr = mutate_primer(rng, m["rev"], kr)
     bar = rseq(rng, barlen if barlen is not None else rng.choice([1, 5, 20, 30, 45]))
     left = (spf if m["fdelim"] and tf else "") + tf + spf
     right = rc(spr) + rc(tr) + (rc(spr) if m["rdelim"] and tr else "")
+    rescue_ok = True
+
+    def rescue_side(d, sp, ind, tag, alpha):
+        """x d^k1 tag d^k2 ; returns (text, within the shape of the rescue theorem)"""
+        d = chr(d)
+        if rng.random() < 0.85:
+            return rng.choice(alpha) + d * rng.randint(1, sp) + tag + d * rng.randint(max(1, sp - ind), sp), True
+        k = rng.random()
+        if k < 0.3:                                 # too many delimiters lost next to the primer
+            return rng.choice(alpha) + d * sp + tag + d * max(0, sp - ind - 1), False
+        if k < 0.6:                                 # longer delimiter runs than declared
+            return rng.choice(alpha) + d * (sp + rng.choice([0, 1, 2])) + tag + d * (sp + rng.choice([1, 2])), False
+        if k < 0.8:                                 # no base before the outer run / no outer run
+            return d * rng.choice([0, sp]) + tag + d * sp, False
+        return d + d * sp + tag + d * sp, False     # the base before the outer run is the delimiter itself
+    if m["fdelim"] and m["ftind"] and m["ftl"] and tf:
+        left, ok = rescue_side(m["fdelim"], m["fsp"], m["ftind"], tf, af); rescue_ok = rescue_ok and ok
+    if m["rdelim"] and m["rtind"] and m["rtl"] and tr:
+        txt_r, ok = rescue_side(m["rdelim"], m["rsp"], m["rtind"], tr, ar); rescue_ok = rescue_ok and ok
+        right = rc(txt_r)
     if m["ftl"] == 0:
         left = spf if not m["fdelim"] else ""
     if m["rtl"] == 0:
         right = rc(spr) if not m["rdelim"] else ""
     txt = left + pf + bar + rc(pr) + right
     info = dict(fwd=m["fwd"], rev=m["rev"], tf=tf if m["ftl"] else "", tr=tr if m["rtl"] else "", pf=pf, pr=pr, bar=bar, kf=kf, kr=kr,
-                pf_at=len(left), left=len(left), right=len(right), total=len(txt))
+                pf_at=len(left), left=len(left), right=len(right), total=len(txt), rescue_ok=rescue_ok)
     return txt, info
+
+
+def bad_tags(rng, m):
+    """a tag pair meant NOT to identify a sample of marker m (the oracle decides what it really identifies)"""
+    fts = sorted({x["f"] for x in m["samples"]}); rts = sorted({x["r"] for x in m["samples"]})
+    declared = {(x["f"], x["r"]) for x in m["samples"]}
+    free = [(a, b) for a in fts for b in rts if (a, b) not in declared]
+    if free and rng.random() < 0.6:
+        a, b = rng.choice(free)                  # both tags declared, the combination is not
+        return dict(f=a, r=b, sample="?", exp="?")
+    af = "".join(c for c in "acgt" if ord(c) != m["fdelim"]); ar = "".join(c for c in "acgt" if ord(c) != m["rdelim"])
+    a, b = rng.choice(fts), rng.choice(rts)
+    if m["ftl"] and (not m["rtl"] or rng.random() < 0.5):
+        a = rseq(rng, m["ftl"], af)
+    else:
+        b = rseq(rng, m["rtl"], ar)
+    return dict(f=a, r=b, sample="?", exp="?")
 
 
 def gen_reads(rng, lib, n):
@@ -314,13 +447,15 @@ def gen_reads(rng, lib, n):
     for _ in range(n):
         m = rng.choice(ms)
         s = rng.choice(m["samples"])
-        kind = rng.choice(["canon", "canon", "canon", "pmis", "pmis", "pover", "tagerr", "tagerr", "chimera", "chimera", "partial", "noprimer", "short", "cross", "nested"])
+        kind = rng.choice(["canon", "canon", "canon", "pmis", "pmis", "pover", "tagerr", "tagerr", "chimera", "chimera", "chimera2", "chimera2", "partial", "noprimer", "short", "cross", "nested"])
+        pind = bool(m["find"] or m["rind"])
         fl, fr = rseq(rng, rng.choice([0, 0, 1, 3, 10])), rseq(rng, rng.choice([0, 0, 1, 3, 10]))
         amps = []
+        pat2 = None
         if kind == "canon":
             a, inf = amplicon(rng, m, s); body = a; amps = [inf]
         elif kind == "pmis":
-            a, inf = amplicon(rng, m, s, kf=rng.randint(0, m["ferr"]), kr=rng.randint(0, m["rerr"])); body = a; amps = [inf]
+            a, inf = amplicon(rng, m, s, kf=rng.randint(0, m["ferr"]), kr=rng.randint(0, m["rerr"]), pindel=pind); body = a; amps = [inf]
         elif kind == "pover":
             kf, kr = rng.choice([(m["ferr"] + rng.choice([1, 2]), 0), (0, m["rerr"] + rng.choice([1, 2])), (m["ferr"] + 1, m["rerr"] + 1)])
             a, inf = amplicon(rng, m, s, kf=kf, kr=kr); body = a; amps = [inf]
@@ -338,6 +473,27 @@ def gen_reads(rng, lib, n):
                 inf["off"] = len(fl) + len(body)
                 body += (rc(a) if flip else a) + rseq(rng, rng.choice([0, 2, 7]))
                 amps.append(inf)
+        elif kind == "chimera2":
+            # two amplicons of different status in every order: good+bad, bad+good, good+good of different samples, bad+bad
+            # (bad = a tag pair that is not declared / a tag that is nobody's unique neighbour); same or different markers
+            body = ""
+            pattern = rng.choice(["gb", "bg", "gg", "gg", "bb"])
+            pat2 = pattern
+            prev = None
+            for st in pattern:
+                m2 = m if rng.random() < 0.6 else rng.choice(ms)
+                s2 = rng.choice([x for x in m2["samples"] if x is not prev] or m2["samples"])
+                prev = s2
+                if st == "b":
+                    s2 = bad_tags(rng, m2)
+                a, inf = amplicon(rng, m2, s2, kf=rng.choice([0, 0, 1]) if m2["ferr"] else 0, pindel=bool(m2["find"]))
+                flip = rng.random() < 0.4
+                inf["flip"] = flip
+                inf["off"] = len(fl) + len(body)
+                inf["status"] = st
+                body += (rc(a) if flip else a) + rseq(rng, rng.choice([0, 2, 7]))
+                amps.append(inf)
+            kind = "chimera"
         elif kind == "partial":
             a, inf = amplicon(rng, m, s)
             cut = rng.choice(["nofwd", "norev", "half"])
@@ -368,8 +524,8 @@ def gen_reads(rng, lib, n):
         if not read:
             read = "a"
         flip = rng.random() < 0.5
-        out.append(dict(read=read, kind=kind, amps=amps, marker=(m["fwd"], m["rev"])))
-        out.append(dict(read=rc(read), kind=kind, amps=amps, marker=(m["fwd"], m["rev"]), rc_of=len(out) - 1))
+        out.append(dict(read=read, kind=kind, amps=amps, marker=(m["fwd"], m["rev"]), pattern=pat2))
+        out.append(dict(read=rc(read), kind=kind, amps=amps, marker=(m["fwd"], m["rev"]), pattern=pat2, rc_of=len(out) - 1))
     return out
 
 
@@ -423,6 +579,13 @@ def check_safety(lib, res):
             return "forward match %r is not a match of the forward primer within budget (reported %d errors)" % (res["fm"], res["fe"])
         if len(res["rm"]) != len(m["rev"]) or mism(m["rev"], res["rm"]) != res["re"] or res["re"] > m["rerr"]:
             return "reverse match %r is not a match of the reverse primer within budget (reported %d errors)" % (res["rm"], res["re"])
+    else:
+        # primer indels: the reported span is within the declared number of edit operations of the primer (IUPAC edit distance),
+        # and the reported error count is not smaller than that distance
+        if not (edit_iupac(m["fwd"], res["fm"]) <= res["fe"] <= m["ferr"]):
+            return "forward match %r: edit distance %d to the forward primer, reported %d errors, budget %d" % (res["fm"], edit_iupac(m["fwd"], res["fm"]), res["fe"], m["ferr"])
+        if not (edit_iupac(m["rev"], res["rm"]) <= res["re"] <= m["rerr"]):
+            return "reverse match %r: edit distance %d to the reverse primer, reported %d errors, budget %d" % (res["rm"], edit_iupac(m["rev"], res["rm"]), res["re"], m["rerr"])
     exp, prop = expected_sample(m, res["ft"], res["rt"])
     if res["has_sample"]:
         if exp is None:
@@ -440,6 +603,11 @@ def check_safety(lib, res):
     return None
 
 
+def order_dependence_key(lib):
+    """known-finding key for records that depend on a map iteration order (None: no recorded finding applies)"""
+    return None
+
+
 def check_parse(lib, obs_lib):
     exp = []
     for m in lib["markers"]:
@@ -453,20 +621,23 @@ def check_parse(lib, obs_lib):
 
 
 def canonical_expectation(lib, rd, hits):
-    """If the read is a canonical single-amplicon read (or a chimera of complete amplicons) whose specification hits are exactly the intended
-    ones, return the list of expected records; otherwise None (clause not applicable)."""
+    """If the read is a canonical single-amplicon read (or a chimera of complete amplicons) whose primer hits are exactly the intended
+    ones, return the list of expected records; otherwise None (clause not applicable).
+    hits: (begin, end, errors, marker index, which) - the specification windows (substitution matcher) or, for sheets with primer
+    indels, the spans reported by the library's matcher (the matcher is a parameter of the clause, as in C12_canonical_read_any_matcher).
+    Rescue sides (tag delimiter + tag indels): applicable when the amplicon has the shape of C12_canonical_read_rescue."""
     if rd["kind"] not in ("canon", "pmis", "tagerr", "chimera") or not rd["amps"]:
         return None
     is_rc = "rc_of" in rd or bool(rd.get("is_rc"))
     L = len(rd["read"])
     want = []
     recs = []
+    kof = {(h[0], h[1], h[3], h[4]): h[2] for h in hits}
     for a in rd["amps"]:
         mi, m = find_marker(lib, a["fwd"], a["rev"])
-        if m["find"] or m["rind"]:
-            return None
-        if m["ftind"] or m["rtind"]:
-            return None                          # rescue extraction: safety clause only
+        resc_f = bool(m["fdelim"] and m["ftind"]); resc_r = bool(m["rdelim"] and m["rtind"])
+        if (resc_f or resc_r) and not a.get("rescue_ok"):
+            return None                          # outside the shape of the rescue theorem: safety clause only
         if a["kf"] > m["ferr"] or a["kr"] > m["rerr"] or len(a["bar"]) == 0:
             return None
         b1 = a["off"] + a["pf_at"]; e1 = b1 + len(a["pf"]); b2 = e1 + len(a["bar"]); e2 = b2 + len(a["pr"])
@@ -479,19 +650,26 @@ def canonical_expectation(lib, rd, hits):
             b1, e1, b2, e2 = L - e2, L - b2, L - e1, L - b1
             fwd_oriented = not fwd_oriented
         if fwd_oriented:
-            want += [(b1, e1, mi, "f"), (b2, e2, mi, "cr")]
+            w1, w2 = (b1, e1, mi, "f"), (b2, e2, mi, "cr")
         else:
-            want += [(b1, e1, mi, "r"), (b2, e2, mi, "cf")]
+            w1, w2 = (b1, e1, mi, "r"), (b2, e2, mi, "cf")
+        want += [w1, w2]
+        if w1 not in kof or w2 not in kof:
+            return None
         if m["fdelim"] and a["tf"] == "" and m["ftl"]:
             return None
         if m["rdelim"] and a["tr"] == "" and m["rtl"]:
             return None
-        if "tagmut" in a and (m["fdelim"] or m["rdelim"] or a["tagmut"][1] not in ("sub", "rot")):
-            return None                          # indel inside a fixed window shifts the window: outside the canonical shape
+        if "tagmut" in a:
+            sd, kind = a["tagmut"]
+            on_rescue_side = resc_f if sd == "f" else resc_r
+            if not on_rescue_side and (m["fdelim"] or m["rdelim"] or kind not in ("sub", "rot")):
+                return None                      # indel inside a fixed window shifts the window: outside the canonical shape
         ft, rt = a["tf"], a["tr"]
         exp, _ = expected_sample(m, ft, rt)
+        kfwd, krev = (kof[w1], kof[w2]) if fwd_oriented else (kof[w2], kof[w1])
         recs.append((b1, dict(seq=a["bar"], dir="forward" if fwd_oriented else "reverse", fp=m["fwd"], rp=m["rev"], fm=a["pf"], rm=a["pr"],
-                              fe=mism(m["fwd"], a["pf"]), re=mism(m["rev"], a["pr"]), ft=ft, rt=rt,
+                              fe=kfwd, re=krev, ft=ft, rt=rt,
                               sample=exp["sample"] if exp else None, exp=exp["exp"] if exp else None)))
     got = sorted((h[0], h[1], h[3], h[4]) for h in hits)
     if got != sorted(want):
@@ -557,7 +735,36 @@ def demux_term(lib, sid, read, recs):
     return "CDemux %s %s (%s)" % (lib_term(lib, sid), cs(read), o)
 
 
-IMPORTS = "From Coq Require Import NArith List. Import ListNotations.\nFrom OBI.C12 Require Import Model.\nOpen Scope N_scope.\n"
+WHICH = {(False, True): "f", (True, True): "cr", (False, False): "r", (True, False): "cf"}
+
+
+def hook_hits(lib, hh):
+    """primer matches exported by the library (verif hook) -> (begin, end, errors, marker index, which)"""
+    out = []
+    for h in hh:
+        mi, _ = find_marker(lib, h["fwd"], h["rev"])
+        out.append((h["b"], h["e"], h["k"], mi, WHICH[(h["c"], h["dir"])]))
+    return out
+
+
+def hits_term(hits):
+    """Gallina list of [hit]: marker rank +-(index+1), orientation flag = PrimerMatch.Forward"""
+    ts = []
+    for (b, e, k, mi, which) in hits:
+        mk = (mi + 1) if which in ("f", "r") else -(mi + 1)
+        ts.append("mkH (%d) (%d) (%d) (%d) %s" % (b, e, k, mk, "true" if which in ("f", "cr") else "false"))
+    return "[" + ";".join(ts) + "]"
+
+
+def demux_hits_term(lib, sid, read, hits, recs):
+    if len(recs) == 1 and recs[0]["err"] == "No barcode identified" and not recs[0]["fp"]:
+        o = "NoBarcode %s" % cs(recs[0]["seq"])
+    else:
+        o = "Recs [" + ";".join(res_term(lib, sid, r) for r in recs) + "]"
+    return "CDemuxH %s %s %s%%Z (%s)" % (lib_term(lib, sid), cs(read), hits_term(hits), o)
+
+
+IMPORTS = "From Coq Require Import NArith ZArith List. Import ListNotations.\nFrom OBI.C12 Require Import Model.\nOpen Scope N_scope.\n"
 
 
 # ----------------------------------------------------------------------------- unit operations
@@ -572,6 +779,12 @@ def gen_units(rng, n):
     cases.append(dict(op="closest", tags=[["aaaa", "c"], ["aaat", "g"], ["aaac", "t"]], a="aaac", side="f", dist="lev"))
     cases.append(dict(op="closest", tags=[["c", "aaaa"], ["g", "aaat"], ["t", "aaag"]], a="aaac", side="r", dist="hamming"))
     cases.append(dict(op="closest", tags=[], a="aaac", side="r", dist="hamming"))
+    # seed C12-A class: a tie between two declared tags, one of which is shared by several samples - the answer must be "" for EVERY
+    # order in which the samples are met (A B A re-armed a 'unique' flag); all orders of the multiset are forced by the harness
+    cases.append(dict(op="closest", tags=[["aaaa", "c"], ["aaaa", "g"], ["aaat", "t"]], a="aaac", side="f", dist="hamming"))
+    cases.append(dict(op="closest", tags=[["c", "aaaa"], ["g", "aaaa"], ["t", "aaat"], ["a", "aaat"]], a="aaac", side="r", dist="hamming"))
+    cases.append(dict(op="closest", tags=[["acgt", "c"], ["acgt", "g"], ["acgt", "t"], ["aggt", "t"], ["tttt", "a"]], a="atgt", side="f", dist="lev"))
+    cases.append(dict(op="closest", tags=[["aaaa", "c"], ["aaaa", "g"], ["aaat", "t"], ["aaat", "a"], ["aaag", "a"]], a="aaac", side="f", dist="hamming"))
     for _ in range(n):
         la = rng.choice([0, 1, 3, 4, 4, 8, 8, 9])
         a = rseq(rng, la, al[:rng.choice([2, 4])])
@@ -613,6 +826,10 @@ def gen_units(rng, n):
             s = rseq(rng, rng.choice([0, 2, 6]), al) + d * max(0, border + rng.choice([-2, -1, 0, 0, 1])) + \
                 rseq(rng, max(0, tagl + rng.choice([-3, -2, -1, 0, 0, 1, 2, 3])), nd) + d * k2 + \
                 rseq(rng, rng.choice([0, 0, 1, 3]), nd)
+        if rng.random() < 0.5:                  # inside the shape of C12_rescue_tag_spec: every admissible run length / tag length
+            nd = al.replace(d, "")
+            s = rseq(rng, rng.choice([0, 1, 5]), al) + rng.choice(nd) + d * rng.randint(1, border) + \
+                rseq(rng, tagl + rng.randint(-indel, indel), nd) + d * rng.randint(max(1, border - indel), border) + rseq(rng, rng.choice([0, 0, 0, 1, 2]), nd)
         cases.append(dict(op="lookfortag", a=s, delim=d))
         cases.append(dict(op="rescue", a=s, delim=d, tagl=tagl, border=border, indel=indel))
     return cases
@@ -629,6 +846,8 @@ def unit_expected(c):
         return ("closest", t, d)
     if c["op"] == "lookfortag":
         return ("str", look_for_tag_spec(c["a"], c["delim"]))
+    if c["op"] == "rescue":
+        return ("rescue", rescue_expectation(c["a"], c["delim"], c["tagl"], c["border"], c["indel"]))
     return None
 
 
@@ -672,6 +891,21 @@ def corpus():
         inf["off"] = n; inf["flip"] = False
         rds.append(dict(read=fl + a + "ac", kind="canon", amps=[inf], tag="fixed:long-left-flank"))
         rds.append(dict(read=rc(fl + a + "ac"), kind="canon", amps=[inf], rc_of=len(rds) - 1))
+    # seed C12-B class: chimeric reads whose amplicons have different status, in every order and orientation (an annotation map reused
+    # across the amplicons of a read leaks the error flag / the sample of one amplicon into the next)
+    m0 = lib["markers"][0]
+    undeclared = dict(f="aacg", r="ggtt", sample="?", exp="?")
+    for pat in ("gb", "bg", "gg", "bb"):
+        for flips in ((False, False), (True, False), (False, True)):
+            body, amps, goods = "", [], list(m0["samples"])
+            for st, flip in zip(pat, flips):
+                smp = goods.pop(0) if st == "g" else undeclared
+                a, inf = amplicon(crng, m0, smp, barlen=12)
+                inf["flip"] = flip; inf["off"] = 2 + len(body); inf["status"] = st
+                body += (rc(a) if flip else a) + "ac"
+                amps.append(inf)
+            rds.append(dict(read="tt" + body, kind="chimera", amps=amps, pattern=pat, tag="seed:C12-B-class"))
+            rds.append(dict(read=rc("tt" + body), kind="chimera", amps=amps, pattern=pat, rc_of=len(rds) - 1))
     out.append((lib, sheet, rds))
     lib2 = dict(fmt="csv", markers=[dict(fwd=P1, rev=P2, ftl=4, rtl=4, fsp=2, rsp=2, ferr=1, rerr=1, find=False, rind=False, fmode="hamming", rmode="hamming",
                                            fdelim=0, rdelim=0, ftind=0, rtind=0,
@@ -686,23 +920,79 @@ def corpus():
     t3 = "gg" + Q1 + bar + rc(Q2) + "tt" + rc("acgtacga")
     reads2 = [t1, rc(t1), t2, rc(t2), t3, rc(t3), t2 + t3, rc(t3) + t2]
     out.append((lib2, sheet2, [dict(read=r, kind="corpus", amps=[]) for r in reads2]))
+    # two markers whose forward primers differ by one base (budget 2): a read of either marker is hit by both forward patterns at the
+    # same position; the records must still be the same on every run (fixed: markers examined in sorted order, stable sort of the hits)
+    P1b = P1[:5] + "t" + P1[6:]
+    mk = lambda f, r, t1, t2, sn: dict(fwd=f, rev=r, ftl=4, rtl=4, fsp=0, rsp=0, ferr=2, rerr=2, find=False, rind=False, fmode="strict", rmode="strict",
+                                       fdelim=0, rdelim=0, ftind=0, rtind=0, samples=[dict(f=t1, r=t2, sample=sn, exp="e")])
+    lib3 = dict(fmt="old", markers=sorted([mk(P1, P2, "aacc", "ggtt", "s1"), mk(P1b, Q2, "acac", "gtgt", "s2")], key=lambda m: (m["fwd"], m["rev"])),
+                near_identical_primers=True)
+    sheet3 = "e s1 aacc:ggtt %s %s F @\ne s2 acac:gtgt %s %s F @\n" % (P1, P2, P1b, Q2)
+    n1 = "tt" + "aacc" + P1 + bar + rc(P2) + rc("ggtt") + "aa"
+    n2 = "tt" + "acac" + P1b + bar + rc(Q2) + rc("gtgt") + "aa"
+    out.append((lib3, sheet3, [dict(read=r, kind="corpus", amps=[], tag="fixed:near-identical-primers") for r in (n1, rc(n1), n2, rc(n2), n1 + n2, n2 + rc(n1))]))
+    # primer indels (@indels true): an inserted base in the forward primer occurrence, a deleted base in the reverse one, both, and a
+    # substitution + an insertion; the spans come from the library's matcher, the canonical clause is asserted when they are the intended ones
+    lib5 = dict(fmt="csv", markers=[dict(fwd=P1, rev=P2, ftl=4, rtl=4, fsp=0, rsp=0, ferr=2, rerr=2, find=True, rind=True, fmode="strict", rmode="strict",
+                                           fdelim=0, rdelim=0, ftind=0, rtind=0,
+                                           samples=[dict(f="aacc", r="ggtt", sample="s1", exp="e"), dict(f="aacg", r="ggta", sample="s2", exp="e")])])
+    sheet5 = "@param,indels,true\nexperiment,sample,sample_tag,forward_primer,reverse_primer\ne,s1,aacc:ggtt,%s,%s\ne,s2,aacg:ggta,%s,%s\n" % (P1, P2, P1, P2)
+    rds5 = []
+    for pf, pr in ((P1[:9] + "t" + P1[9:], P2), (P1, P2[:7] + P2[8:]), (P1[:9] + "t" + P1[9:], P2[:7] + P2[8:]), (P1[:5] + "a" + P1[6:11] + "c" + P1[11:], P2)):
+        left = "aacc"; right = rc("ggtt")
+        txt = left + pf + bar + rc(pr) + right
+        inf = dict(fwd=P1, rev=P2, tf="aacc", tr="ggtt", pf=pf, pr=pr, bar=bar, kf=0, kr=0, pf_at=4, left=4, right=4, total=len(txt), rescue_ok=True, off=3, flip=False)
+        rds5.append(dict(read="cat" + txt + "ga", kind="pmis", amps=[inf], tag="primer-indels"))
+        rds5.append(dict(read=rc("cat" + txt + "ga"), kind="pmis", amps=[inf], rc_of=len(rds5) - 1))
+    out.append((lib5, sheet5, rds5))
+    # rescue extraction (C12_canonical_read_rescue): delimiter t, spacer 2, one tag indel, matching = indel; delimiter runs shortened,
+    # observed tags with a deleted / inserted base (the first read is the Example C12_canonical_rescue_nonvacuous of Props.v)
+    lib6 = dict(fmt="csv", markers=[dict(fwd=P1, rev=P2, ftl=4, rtl=4, fsp=2, rsp=2, ferr=2, rerr=2, find=False, rind=False, fmode="indel", rmode="indel",
+                                           fdelim=ord("t"), rdelim=ord("t"), ftind=1, rtind=1,
+                                           samples=[dict(f="aacc", r="ggaa", sample="s1", exp="e"), dict(f="ccgg", r="ccca", sample="s2", exp="e")])])
+    sheet6 = ("@param,spacer,2\n@param,matching,indel\n@param,tag_delimiter,t\n@param,tag_indels,1\nexperiment,sample,sample_tag,forward_primer,reverse_primer\n"
+              "e,s1,aacc:ggaa,%s,%s\ne,s2,ccgg:ccca,%s,%s\n" % (P1, P2, P1, P2))
+    rds6 = []
+    for (k1f, k2f, k1r, k2r, tf6, tr6) in ((2, 1, 1, 2, "aac", "ggaac"), (2, 2, 2, 2, "aacc", "ggaa"), (1, 1, 1, 1, "aacgc", "gga"), (2, 2, 2, 1, "ccgg", "cccaa"), (1, 2, 2, 2, "cgg", "ccca")):
+        L6 = "g" + "t" * k1f + tf6 + "t" * k2f
+        R6 = rc("g" + "t" * k1r + tr6 + "t" * k2r)
+        txt = L6 + P1 + bar + rc(P2) + R6
+        inf = dict(fwd=P1, rev=P2, tf=tf6, tr=tr6, pf=P1, pr=P2, bar=bar, kf=0, kr=0, pf_at=len(L6), left=len(L6), right=len(R6), total=len(txt), rescue_ok=True, off=2, flip=False)
+        rds6.append(dict(read="gg" + txt + "a", kind="tagerr", amps=[inf], tag="rescue"))
+        rds6.append(dict(read=rc("gg" + txt + "a"), kind="tagerr", amps=[inf], rc_of=len(rds6) - 1))
+    out.append((lib6, sheet6, rds6))
+    # BY DESIGN (C12_nearest_tag_has_no_distance_bound): hamming mode assigns a tag that shares no base with any declared tag
+    # as soon as one declared tag is strictly nearer than the others
+    lib4 = dict(fmt="csv", markers=[dict(fwd=P1, rev=P2, ftl=4, rtl=4, fsp=0, rsp=0, ferr=2, rerr=2, find=False, rind=False, fmode="hamming", rmode="hamming",
+                                           fdelim=0, rdelim=0, ftind=0, rtind=0,
+                                           samples=[dict(f="aaaa", r="cccc", sample="s1", exp="e"), dict(f="ggtt", r="cccc", sample="s2", exp="e")])])
+    sheet4 = "@param,matching,hamming\nexperiment,sample,sample_tag,forward_primer,reverse_primer\ne,s1,aaaa:cccc,%s,%s\ne,s2,ggtt:cccc,%s,%s\n" % (P1, P2, P1, P2)
+    g1 = "g" + "catt" + P1 + bar + rc(P2) + rc("cccc") + "a"     # catt: distance 4 to aaaa, 2 to ggtt -> s2
+    g2 = "g" + "cgtc" + P1 + bar + rc(P2) + rc("ttta") + "a"     # reverse tag ttta at distance 4 of the only reverse tag -> still assigned
+    out.append((lib4, sheet4, [dict(read=r, kind="corpus", amps=[], tag="by-design:no-distance-bound") for r in (g1, rc(g1), g2, rc(g2))]))
     return out
 
 
 # ----------------------------------------------------------------------------- evaluation
-def evaluate(ctx, sheets, units, broken, label, report=True):
+def evaluate(ctx, sheets, units, broken, label, report=True, corr=True):
     """sheets: list of (lib, sheet text, reads). Runs the real code, the direct oracle and the correspondence."""
-    cases = [dict(op="demux", sheet=txt, reads=[r["read"] for r in reads]) for (lib, txt, reads) in sheets] + units
+    def reps_for(lib):
+        # fresh Go maps on every repetition: matters when the sample table is scanned (hamming / indel) or several markers compete
+        ms = lib.get("markers", [])
+        return 4 if (len(ms) > 1 or any(m["fmode"] != "strict" or m["rmode"] != "strict" for m in ms)) else 2
+    cases = [dict(op="demux", sheet=txt, reads=[r["read"] for r in reads], hits=True, reps=reps_for(lib)) for (lib, txt, reads) in sheets] + units
     obs = ctx.vh_robust("c12", cases, timeout=600, one_timeout=20)
     stats = ctx.cov.setdefault("distribution", {})
 
     def bump(k, n=1):
         stats[k] = stats.get(k, 0) + n
     nviol = [0]
+    perkind = {}
 
     def viol(kind, payload):
         nviol[0] += 1
-        if report and nviol[0] <= 4:
+        perkind[kind] = perkind.get(kind, 0) + 1
+        if report and perkind[kind] <= 2 and len(perkind) <= 5:      # at most two replays per clause
             ctx.violation("%s_%s_%d" % (label, kind, nviol[0]), dict(property="C12", kind=kind, **payload))
     terms, term_src = [], []
     for ci, ((lib, txt, reads), o) in enumerate(zip(sheets, obs)):
@@ -725,8 +1015,22 @@ def evaluate(ctx, sheets, units, broken, label, report=True):
             for s in m["samples"]:
                 sid.setdefault((s["sample"], s["exp"]), len(sid))
         indel_primers = any(m["find"] or m["rind"] for m in lib["markers"])
+        # DETERMINISM of the records (needed for every clause to be a statement about THE output): same sheet, same read, fresh maps
+        for u in (o.get("unstable") or [])[:1]:
+            ri = u["read"]
+            key = order_dependence_key(lib)
+            if key and ctx.kf_match(key):
+                ctx.known(key, "records depend on the iteration order of a Go map"); bump("known/" + key)
+            else:
+                viol("order", dict(case=dict(sheet=txt, reads=[reads[ri]["read"]] if ri >= 0 else [], declared=lib, rd=dict({k: v for k, v in reads[max(ri, 0)].items() if k != "rc_of"}, is_rc="rc_of" in reads[max(ri, 0)])),
+                                   implementation=dict(first_run=o["reads"][ri] if ri >= 0 else None, another_run=u.get("recs")),
+                                   expected="the same records on every run (the sheet was parsed and the read demultiplexed %d times)" % reps_for(lib)))
+        bump("reps", reps_for(lib))
+        applicable = {}
         for ri, (rd, recs) in enumerate(zip(reads, o["reads"])):
             bump("read/" + rd["kind"])
+            if rd.get("pattern"):
+                bump("chimera2/" + rd["pattern"])
             rep = dict(case=dict(sheet=txt, reads=[rd["read"]], declared=lib, rd=dict({k: v for k, v in rd.items() if k != "rc_of"}, is_rc="rc_of" in rd or bool(rd.get("is_rc")))), read_kind=rd["kind"], implementation=recs)
             # SAFETY: every record
             for r in recs:
@@ -740,16 +1044,33 @@ def evaluate(ctx, sheets, units, broken, label, report=True):
                     bump("flagged_amplicon")
                 else:
                     bump("no_barcode")
-            hits = all_hits(lib, rd["read"]) if not indel_primers else []
+            lhits = hook_hits(lib, o["hits"][ri])              # what the library's matcher found (verif hook)
+            hits = all_hits(lib, rd["read"]) if not indel_primers else lhits
             # CANONICAL
-            exp = canonical_expectation(lib, rd, hits) if not indel_primers else None
+            exp = canonical_expectation(lib, rd, hits)
             if exp is not None:
                 bump("canonical_asserted" + ("/rc" if ("rc_of" in rd or rd.get("is_rc")) else "/fwd"))
+                if indel_primers:
+                    bump("canonical_asserted/primer_indels")
+                    if any(len(a["pf"]) != len(a["fwd"]) or len(a["pr"]) != len(a["rev"]) for a in rd["amps"]):
+                        bump("canonical_asserted/primer_indels/length_changed")
+                if any((find_marker(lib, a["fwd"], a["rev"])[1]["ftind"] and find_marker(lib, a["fwd"], a["rev"])[1]["fdelim"]) or
+                       (find_marker(lib, a["fwd"], a["rev"])[1]["rtind"] and find_marker(lib, a["fwd"], a["rev"])[1]["rdelim"]) for a in rd["amps"]):
+                    bump("canonical_asserted/rescue")
+                    if any("tagmut" in a and a["tagmut"][1] in ("del", "ins") for a in rd["amps"]):
+                        bump("canonical_asserted/rescue/tag_indel")
+                if rd.get("pattern"):
+                    bump("canonical_asserted/chimera2/" + rd["pattern"])
                 why = compare_canonical(exp, recs)
                 if why:
                     viol("canonical", dict(rep, expected=dict(why=why, records=exp)))
-                # STRAND SYMMETRY (asserted on the canonical shape)
-                if "rc_of" in rd:
+                # STRAND SYMMETRY (asserted on the canonical shape; the hypothesis "the primer hits are exactly the two priming sites"
+                # must hold on BOTH strands, as in C12_strand_symmetry: the library searches the complemented patterns only behind a direct
+                # hit, so with near-identical primers of two markers its hit lists on the two strands are not mirror images)
+                applicable[ri] = True
+                if "rc_of" in rd and not applicable.get(rd["rc_of"]):
+                    bump("strand_not_applicable(hits differ between strands)")
+                elif "rc_of" in rd:
                     fw = o["reads"][rd["rc_of"]]
                     key = lambda r: (r["seq"], r["dir"], r["fp"], r["rp"], r["fm"], r["rm"], r["fe"], r["re"], r["ft"], r["rt"], r["has_sample"], r["sample"], r["exp"], r["has_err"])
                     if [key(r) for r in mirror(fw)] != [key(r) for r in recs]:
@@ -757,18 +1078,22 @@ def evaluate(ctx, sheets, units, broken, label, report=True):
                     bump("strand_asserted")
             elif rd["kind"] in ("canon", "pmis", "tagerr", "chimera"):
                 bump("canonical_not_applicable(spurious-hit/rescue/indel)")
-            # correspondence term (skipped: primer indels; begin ties between different patterns)
-            if indel_primers:
-                bump("corr_skipped/primer_indels"); continue
+            # correspondence term. Hits of different patterns starting at the same position are examined in the order
+            # (marker in primer order; forward, complemented reverse, reverse, complemented forward) - fixed in round 2, part of the model
             begins = {}
-            tie = False
             for h in hits:
                 if h[0] in begins and begins[h[0]] != (h[3], h[4]):
-                    tie = True
+                    bump("corr/with_begin_tie"); break
                 begins[h[0]] = (h[3], h[4])
-            if tie:
-                bump("corr_skipped/begin_tie"); continue
-            terms.append(demux_term(lib, sid, rd["read"], recs)); term_src.append(("demux", ci, ri))
+            rank = dict(f=0, cr=1, r=2, cf=3)
+            lhits = sorted(lhits, key=lambda h: (h[3], rank[h[4]]))
+            if indel_primers:
+                # the matcher is a parameter: the model gets the spans the library's matcher reported
+                terms.append(demux_hits_term(lib, sid, rd["read"], lhits, recs)); term_src.append(("demux", ci, ri)); bump("corr/demux_hits(primer_indels)")
+            else:
+                terms.append(demux_term(lib, sid, rd["read"], recs)); term_src.append(("demux", ci, ri))
+                if ri % 4 == 0:                     # same case with the library's own hits (ties the hit export hook to the matcher model)
+                    terms.append(demux_hits_term(lib, sid, rd["read"], lhits, recs)); term_src.append(("demux", ci, ri)); bump("corr/demux_hits")
     for ui, (c, o) in enumerate(zip(units, obs[len(sheets):])):
         bump("unit/" + c["op"])
         if o["kind"] in ("crash", "panic", "fatal"):
@@ -780,10 +1105,43 @@ def evaluate(ctx, sheets, units, broken, label, report=True):
         elif e and e[0] == "str":
             ok = o["str"] == e[1]
         elif e and e[0] == "closest":
-            ok = o["str"] == e[1] and (e[2] is None or o["int"] == e[2]) and o["stable"]
+            # EVERY iteration order of the sample map that was observed must give the unique nearest tag
+            ords = o.get("orders") or []
+            ok = o["stable"] and all(x["tag"] == e[1] and (e[2] is None or x["dist"] == e[2]) for x in ords) and (bool(ords) or not c["tags"])
+            bump("closest/orders_observed", o.get("n_orders", 0))
+            if o.get("target_orders", -1) > 0:
+                bump("closest/all_orders_seen" if o["n_orders"] >= o["target_orders"] else "closest/some_orders_not_seen")
+            if not ok:
+                bad = [x for x in ords if x["tag"] != e[1] or (e[2] is not None and x["dist"] != e[2])][:3]
+                viol("unit", dict(case=c, implementation=dict(kind="closest", stable=o["stable"], n_orders=o.get("n_orders"), failing_orders=bad, first=ords[:1]), expected=e))
+                continue
+            elif c["tags"]:
+                side_tags = [t[0] if c["side"] == "f" else t[1] for t in c["tags"]]
+                # one term per observed order (at most 5) : model folded in that very order = code
+                for x in ords[:(5 if ctx.quick else 2)]:
+                    terms.append("CClosest %s %s true %s %s %s" % ("[" + ";".join("(%s,[])" % cs(t) for t in x["order"]) + "]", cs(c["a"]),
+                                                               "false" if c["dist"] == "hamming" else "true", cs(x["tag"]), "(Some %d)" % x["dist"]))
+                    term_src.append(("unit", ui, 0))
+                if 0 < len(side_tags) <= 6:         # every permutation of the declared tags, inside Coq
+                    terms.append("CClosestAll %s %s %s %s %s" % ("[" + ";".join(cs(t) for t in side_tags) + "]", cs(c["a"]),
+                                                               "false" if c["dist"] == "hamming" else "true", cs(o["str"]), "(Some %d)" % o["int"]))
+                    term_src.append(("unit", ui, 0)); bump("closest/all_permutations_in_coq")
+                continue
+        elif e and e[0] == "rescue":
+            # C12_rescue_tag_spec (inside the shape) and C12_rescue_tag_sound (always): "" or a factor of the fragment within tag_indels of the declared length
+            got = o["str"]
+            if e[1] is not None:
+                bump("rescue/in_theorem_shape")
+                if len(e[1]) != c["tagl"]:
+                    bump("rescue/in_theorem_shape/tag_length_changed")
+                ok = got == e[1]
+            if got != "" and c["indel"] <= c["tagl"] and not (got in c["a"] and abs(len(got) - c["tagl"]) <= c["indel"]):
+                ok = False
         if not ok:
             viol("unit", dict(case=c, implementation=o, expected=e))
         terms.append(unit_term(c, o)); term_src.append(("unit", ui, 0))
+    if not corr:                                     # search for a failing input: the direct oracle only
+        return obs, [], nviol[0]
     bad, err = ctx.correspond(label, IMPORTS, terms, shard=120)
     if bad is None:
         broken.append(dict(kind="correspondence", detail=err))
@@ -800,6 +1158,7 @@ def gen_all(ctx, nsheets, nreads, nunits):
         sheets.append((lib, txt, gen_reads(rng, lib, nreads)))
     for _ in range(max(4, nsheets // 15)):           # malformed stream
         sheets.append(gen_malformed(rng))
+        sheets.append(gen_shared_primer(rng))
     return sheets, gen_units(rng, nunits)
 
 
@@ -817,6 +1176,16 @@ def run(ctx, broken):
     ctx.cov["canonical_clause_asserted"] = d.get("canonical_asserted/fwd", 0) + d.get("canonical_asserted/rc", 0)
     ctx.cov["strand_clause_asserted"] = d.get("strand_asserted", 0)
     ctx.cov["model_vs_impl_mismatches"] = len(mism)
+    ctx.cov["rescue_canonical_asserted"] = d.get("canonical_asserted/rescue", 0)
+    ctx.cov["rescue_unit_cases_in_theorem_shape"] = d.get("rescue/in_theorem_shape", 0)
+    ctx.cov["primer_indel_canonical_asserted"] = d.get("canonical_asserted/primer_indels", 0)
+    ctx.cov["primer_indel_correspondence_cases"] = d.get("corr/demux_hits(primer_indels)", 0)
+    ctx.cov["begin_tie_cases_in_correspondence"] = d.get("corr/with_begin_tie", 0)
+    ctx.cov["closest_iteration_orders_forced"] = d.get("closest/orders_observed", 0)
+    ctx.cov["closest_cases_with_every_order_seen"] = d.get("closest/all_orders_seen", 0)
+    ctx.cov["closest_cases_not_every_order_seen"] = d.get("closest/some_orders_not_seen", 0)
+    ctx.cov["chimeras_by_status_pattern"] = {k.split("/")[-1]: v for k, v in d.items() if k.startswith("canonical_asserted/chimera2/")}
+    ctx.cov["demultiplexing_repetitions_on_fresh_maps"] = d.get("reps", 0)
     mid = len(sheets) // 2
     while sheets[mid][0].get("malformed"):
         mid -= 1
@@ -824,8 +1193,10 @@ def run(ctx, broken):
     ctx.samples = [dict(sheet=txt, read=rs[0]["read"], kind=rs[0]["kind"], implementation=obs[mid].get("reads", [[]])[0] if obs[mid]["kind"] == "ok" else obs[mid]),
                    dict(unit=units[-1], implementation=obs[-1])]
     if mism and not ctx.violations:
-        more_s, more_u = gen_all(ctx, 600, 6, 600)
-        evaluate(ctx, more_s, more_u, [], "search")
+        import os
+        nsrch = int(os.environ.get("VERIF_C12_SEARCH", "600"))     # (mutation testing under load: a smaller search batch)
+        more_s, more_u = gen_all(ctx, nsrch, 6, nsrch)
+        evaluate(ctx, more_s, more_u, [], "search", corr=False)
         if not ctx.violations:
             k, ci, ri = mism[0]
             first = dict(sheet=sheets[ci][1], read=sheets[ci][2][ri]["read"], implementation=obs[ci]["reads"][ri]) if k == "demux" else dict(unit=units[ci], implementation=obs[len(sheets) + ci])
